@@ -38,7 +38,7 @@ static long arena_inuse_blocks() {
   return n;
 }
 
-struct Measure { long arena_inuse = -1; size_t mapped = 0, mapped_nonarena = 0, big_nonarena = 0, big_nonarena_bytes = 0, small_regions = 0, resident = 0, arena_resident = 0, regions = 0; std::string big_list; };
+struct Measure { size_t map_parts = 0; long arena_inuse = -1; size_t mapped = 0, mapped_nonarena = 0, big_nonarena = 0, big_nonarena_bytes = 0, small_regions = 0, resident = 0, arena_resident = 0, regions = 0; std::string big_list; };
 static Measure measure() {
   Measure m;
   std::vector<ArenaArea> as = arena_areas();
@@ -51,7 +51,12 @@ static Measure measure() {
     if (!ar) {
       m.mapped_nonarena += rs[i].len;
       if (rs[i].len >= 1 * MiB) { m.big_nonarena++; m.big_nonarena_bytes += rs[i].len; char b[96]; snprintf(b, sizeof(b), "%s0x%lx+%zuK#%llu", m.big_list.empty() ? "" : " ", (unsigned long)rs[i].base, rs[i].len / 1024, (unsigned long long)rs[i].ordinal); if (m.big_list.size() < 600) m.big_list += b; }
-      else m.small_regions++;
+      else {
+        m.small_regions++;
+        // a part of the segment map (segment-map.c): 8 KiB - 128 bytes, one per 2 TiB of address space in which a segment was ever placed; kept for the life
+        // of the process by design and at most 64 of them exist -- a new one appears whenever the OS places a mapping in a new 2 TiB range
+        if (rs[i].len == 8192) { m.map_parts++; m.mapped_nonarena -= rs[i].len; m.mapped -= rs[i].len; }
+      }
     }
   }
   m.resident = vf_os_committed_resident(0, 0);
@@ -258,6 +263,7 @@ static void run_ledger(State& S) {
     if (i >= 3 && S.cfg.trace == 0) {
       const Measure& p = g_series[g_series.size() - 2];
       // memory obtained directly from the OS (outside arenas) must not accumulate
+      if (m.map_parts > 64) vf_trip("mapped-grows", "C11", "repetition %d: %zu mappings of 8 KiB outside arenas (the segment map has at most 64 parts)", i, m.map_parts);
       if (m.mapped_nonarena > p.mapped_nonarena)
         vf_trip("mapped-grows", "C11", "repetition %d: memory mapped outside arenas grew from %zu to %zu bytes across identical repetitions (small regions %zu -> %zu)", i, p.mapped_nonarena, m.mapped_nonarena, p.small_regions, m.small_regions);
       // arena space must not leak: blocks still claimed after everything was freed
